@@ -14,6 +14,7 @@ pub fn main(args: &[String]) {
     let shards: Vec<Shard> = (0..nsh).map(|k| Shard::create(&dir, &prefix, k).with_meta(&dir, &prefix, k)).collect();
     let mut pel: Vec<Shard> = (0..nsh).map(|k| Shard::create(&dir, "pel-sim", k)).collect();
     let mut plog: Vec<Shard> = (0..nsh).map(|k| Shard::create(&dir, "plog-sim", k)).collect();
+    let mut pread: Vec<Shard> = (0..nsh).map(|k| Shard::create(&dir, "pread-sim", k)).collect();
     let mut rec = Recorder { shards, rr: 0, calls: 0, panics: Default::default(), hist: Default::default(), enabled: true };
     for k in 0..runs {
         let mut sim = Sim::new(seed.wrapping_mul(1_000_003).wrapping_add(k as u64), rec);
@@ -31,6 +32,10 @@ pub fn main(args: &[String]) {
             pel[k % nsh].put("pelection", &c, &i);
             let (c2, i2) = sim.pt.llines();
             plog[k % nsh].put("plog", &c2, &i2);
+            if sim.pt.reads {
+                let (c3, i3) = sim.pt.rlines();
+                pread[k % nsh].put("pread", &c3, &i3);
+            }
         }
         rec = sim.rec;
     }
@@ -44,6 +49,9 @@ pub fn main(args: &[String]) {
         s.finish();
     }
     for s in plog {
+        s.finish();
+    }
+    for s in pread {
         s.finish();
     }
     println!("cases={}", total);
